@@ -62,6 +62,8 @@ theorem validIdent_no_nl {cfg : Cfg} (wf2 : WF2 cfg) {t : Tok} (h : validIdentTo
   simp only [] at h
   split at h
   · cases h
+  split at h
+  · cases h
   · split at h
     · cases h
     · have hp : (fun r => !(!cfg.isLetter r && !cfg.isDigit r && r != 95 && decide (r < 0x4e00))) 10 = false := by
@@ -69,6 +71,11 @@ theorem validIdent_no_nl {cfg : Cfg} (wf2 : WF2 cfg) {t : Tok} (h : validIdentTo
       have := allRunes_no_nl hp _ _ 0 (by omega) h k (Nat.zero_le _) (by simpa using hk)
       rw [bAt_ofList t.lit k hk (by omega)] at this
       exact this hget
+
+theorem validIdent_not_html {cfg : Cfg} {t : Tok} (h : validIdentTok cfg t = true) : t.ty ≠ cfg.tHTML := by
+  intro hc
+  unfold validIdentTok at h
+  simp [hc] at h
 
 /-! ### generic list facts -/
 
@@ -82,12 +89,11 @@ structure RestOK (cfg : Cfg) (inp : Input) (ts : List Tok) : Prop where
   toks : ∀ t ∈ ts, TokOK cfg inp t
   ordered : ts.Pairwise (fun a b => a.stop ≤ b.start)
   adj : Chain (AdjR cfg) ts
-  nohtml : Chain (fun (a b : Tok) => ¬ (a.ty = cfg.tNSSEP ∧ b.ty = cfg.tHTML)) ts
 
 theorem RestOK.tail {cfg : Cfg} {inp : Input} {a : Tok} {l : List Tok} (h : RestOK cfg inp (a :: l)) :
     RestOK cfg inp l :=
   ⟨fun t ht => h.toks t (List.mem_cons_of_mem _ ht), (List.pairwise_cons.mp h.ordered).2,
-   chain_tail h.adj, chain_tail h.nohtml⟩
+   chain_tail h.adj⟩
 
 /-- `b` directly follows the single-line, non-HTML token `a` -/
 theorem same_line {cfg : Cfg} {inp : Input} {a b : Tok} {l : List Tok} (h : RestOK cfg inp (a :: b :: l))
@@ -138,9 +144,7 @@ theorem nsChain_spec {cfg : Cfg} (wf2 : WF2 cfg) (inp : Input) :
         have hsepml : sep.ty ∉ ml cfg := hsep ▸ wf2.nssep_ml
         have l2 : id.line = sep.line := same_line h.tail hsepml
         have hid10 := validIdent_no_nl wf2 hid
-        have hidh : id.ty ≠ cfg.tHTML := by
-          intro hc
-          exact h.tail.nohtml.1 ⟨hsep, hc⟩
+        have hidh : id.ty ≠ cfg.tHTML := validIdent_not_html hid
         obtain ⟨r1, r2, r3, r4, r5⟩ := ih rest id (lit ++ sep.lit ++ id.lit) h.tail.tail hid10 hidh
         refine ⟨r1, by rw [r2, l2, l1], r3, ?_, r5⟩
         have o1 := (List.pairwise_cons.mp h.ordered).1 sep List.mem_cons_self
@@ -262,7 +266,7 @@ theorem pass1_ok {cfg : Cfg} (wf2 : WF2 cfg) (inp : Input) :
           · -- `\` + keyword-like identifier chain
             rename_i _ hvalid
             have h10 := validIdent_no_nl wf2 hvalid
-            have hh : next.ty ≠ cfg.tHTML := fun hc => h.rest.nohtml.1 ⟨hty, hc⟩
+            have hh : next.ty ≠ cfg.tHTML := validIdent_not_html hvalid
             obtain ⟨r1, r2, r3, r4, r5⟩ :=
               nsChain_spec wf2 inp (rest'.length + 1) rest' next (t.lit ++ next.lit) h.rest.tail h10 hh
             simp only []
@@ -345,12 +349,11 @@ theorem pass3_ok (cfg : Cfg) (inp : Input) :
       · refine ⟨t, List.mem_cons_self, ?_, ?_, ?_⟩ <;> (rw [h']; split <;> rfl)
       · exact lift x hx
 
-theorem process_ok {cfg : Cfg} (wf2 : WF2 cfg) (inp : Input) (raw : List Tok) (h : RawOK cfg inp raw)
-    (hno : Chain (fun a b => ¬ (a.ty = cfg.tNSSEP ∧ b.ty = cfg.tHTML)) raw) :
+theorem process_ok {cfg : Cfg} (wf2 : WF2 cfg) (inp : Input) (raw : List Tok) (h : RawOK cfg inp raw) :
     FinOK inp (process cfg raw) := by
   unfold process
   have p1 := pass1_ok wf2 inp (raw.length + 1) raw []
-    ⟨⟨h.toks, h.ordered, h.adj, hno⟩, by simp, List.Pairwise.nil, by simp⟩
+    ⟨⟨h.toks, h.ordered, h.adj⟩, by simp, List.Pairwise.nil, by simp⟩
   exact (pass3_ok cfg inp _ 0 none (pass2_ok cfg inp _ none p1).1).1
 
 end Proofs.Lex
